@@ -29,9 +29,10 @@ def bounds_for(tier, tpl=None):
 def jobs_for(tier):
     jobs = []
     if tier == 'quick':
-        tpls = corpus.select(feats={'basic', 'ext', 'combo', 'manyadd'}, exclude={'real'})
+        tpls = corpus.select(feats={'basic', 'ext', 'combo', 'manyadd'}, exclude={'real'}) + \
+            corpus.generated(quick=True, exclude={'real'})
     else:
-        tpls = corpus.TEMPLATES
+        tpls = corpus.TEMPLATES + corpus.generated()
     for t in tpls:
         for codec in C.BINARY_CODECS:
             for ne in ((False, True) if ('enum' in t['feats'] and tier == 'thorough') else (False,)):
